@@ -24,6 +24,10 @@ use text_utils::tokenization::{
 };
 use vh::*;
 
+/// stands for "not an item of the input" / "no value": far above every real index (inputs have at most a few
+/// dozen items) yet small enough that a model counting in unary answers at once
+const UNKNOWN_ITEM: usize = 100_003;
+
 struct C08 {
     dir: std::path::PathBuf,
 }
@@ -299,7 +303,7 @@ fn loader_run(
                     }
                 }
                 None => {
-                    out.ids.push(1 << 30);
+                    out.ids.push(UNKNOWN_ITEM);
                     out.fp_ok = false;
                 }
             }
@@ -463,7 +467,7 @@ impl Prop for C08 {
                 ids_val(&f.ids),
                 ids_val(&g.ids),
                 ids_val(&h.ids),
-                Val::u(a.min_items.unwrap_or(1 << 30)),
+                Val::u(a.min_items.unwrap_or(UNKNOWN_ITEM)),
                 Val::L(vec![Val::b(same), Val::b(fp_ok)]),
             ])
         });
